@@ -185,7 +185,7 @@ def build_world(src, shape, sens=None, exploits=None, privescs=None, step_limit=
         srvb = {s: src.bool("%s_srv_%s" % (nm, s)) for s in w.services}
         prcb = {p: src.bool("%s_prc_%s" % (nm, p)) for p in w.procs}
         if src.symbolic:
-            sx.assume(z3.PbEq([(b.z, 1) for b in osb.values()], 1))     # exactly one OS
+            sx.assume(sx.exactly_one([b.z for b in osb.values()]))     # exactly one OS
             sx.assume(z3.Or([b.z for b in srvb.values()]))               # at least one service (docs)
         hfw = {}
         w.deny[a] = {}
